@@ -155,7 +155,13 @@ pub fn run_c05(tape: &[u8], cx: &Cx) -> Outcome {
             for (q, d) in pairs.into_iter().skip(1) {
                 o.evals += 2;
                 let dead = !live[q as usize];
-                let got = match catch(|| (mgr.is_empty_re(d), mgr.get_string(d).is_none())) {
+                let mut witness: Option<Vec<u32>> = None;
+                let got = match catch(|| {
+                    let w = mgr.get_string(d);
+                    let none = w.is_none();
+                    witness = w.map(|x| x.as_ref().to_vec());
+                    (mgr.is_empty_re(d), none)
+                }) {
                     Ok(g) => g,
                     Err(msg) => {
                         o.fail("C05/is_empty_re-panics", format!("{}: emptiness test of the derivative {} panicked: {}", what, d, msg));
@@ -166,6 +172,20 @@ pub fn run_c05(tape: &[u8], cx: &Cx) -> Outcome {
                     let class = if dead { "C05/empty-language-reported-non-empty" } else { "C05/non-empty-language-reported-empty" };
                     o.fail(class, format!("{}: for its derivative {} is_empty_re = {} and get_string is {} but that language is {}", what, d, got.0, if got.1 { "None" } else { "Some" }, if dead { "empty" } else { "not empty" }));
                     return o;
+                }
+                // the witness of a derivative is a member of that derivative's language
+                if let Some(w) = witness {
+                    let mut qq = q;
+                    let in_alphabet = w.iter().all(|&c| c <= crate::atoms::MAX);
+                    if in_alphabet {
+                        for &c in &w {
+                            qq = dfa.step(qq, prog.atoms.atom_of(c));
+                        }
+                    }
+                    if !in_alphabet || !dfa.is_final(qq) {
+                        o.fail("C05/witness-not-a-member", format!("{}: get_string of its derivative {} = {} is not in that derivative's language", what, d, show_str(&w)));
+                        return o;
+                    }
                 }
             }
             o.tag("derivative-terms-queried");
